@@ -564,7 +564,7 @@ fn self_check() -> Vec<String> {
 /// Scale cases: spec counts beyond 255 and data regions beyond 65 535 bytes.
 fn scale_cases() -> Vec<Case> {
     let patterns: [u64; 6] = [0, 0b1110, (1u64 << 34) - 2, ((1u64 << 52) - 2) & !1, 1u64 << 51, (1u64 << 33) | (1u64 << 40) | 0b10];
-    [255usize, 256, 257, 9_000]
+    util::ladder(9_000)
         .iter()
         .map(|n| Case { fam: "scale".into(), hdr: 0x0102_0304, specs: (0..*n).map(|i| SpecDesc { name: (i % 4) as u8, bits: patterns[i % 6], var: (i % 6) as u8 }).collect() })
         .collect()
@@ -610,14 +610,17 @@ fn explore(ctx: &Ctx) -> Outcome {
     }
 
     // family 3: scale
-    let mut t3 = Tally::new();
-    for c in scale_cases() {
-        t3.cases += 1;
-        t3.nontrivial += 1;
-        if let Some((sig, summary)) = judge(&c, &mut t3) {
-            t3.violate(format!("scale:{}", sig), format!("[{} specs] {}", c.specs.len(), summary.chars().take(400).collect::<String>()), json!({"scale": c.specs.len()}));
-        }
-    }
+    let t3 = scale_cases()
+        .par_iter()
+        .fold(Tally::new, |mut t3, c| {
+            t3.cases += 1;
+            t3.nontrivial += 1;
+            if let Some((sig, summary)) = judge(c, &mut t3) {
+                t3.violate(format!("scale:{}", sig), format!("[{} specs] {}", c.specs.len(), summary.chars().take(400).collect::<String>()), json!({"scale": c.specs.len()}));
+            }
+            t3
+        })
+        .reduce(Tally::new, Tally::merge);
 
     // family 2: spec lists
     let mut lists: Vec<Vec<usize>> = Vec::new();
